@@ -882,7 +882,8 @@ pub fn run(ctx: &Ctx) -> &'static str {
                     true
                 }
                 "startup-values" => {
-                    startup_values(ctx);
+                    crate::props::cli::run(ctx);
+    startup_values(ctx);
                     true
                 }
                 "concurrent-stress" => {
